@@ -7,7 +7,8 @@ Segments.  Awaits are not statements: `acquire` is cut at `await <...>.cancel_sh
 the segment ends there).  For each await point: <m>_<pt>_resumed = the statements that follow the await (rest of the
 enclosing blocks, innermost first, up to the first block that cannot fall through); <m>_<pt>_cancelled = the body of
 the `except CancelledError:` handler guarding the await (then the same rest if the handler can fall through), or
-`SRaise ECancelled` when the await is not guarded.  `await <...>.checkpoint_if_cancelled()` is the marker `SCkIf`.
+`SRaise ECancelled` when the await is not guarded.  `await <...>.checkpoint_if_cancelled()` is the marker `SCkIf`; in
+`acquire` it must be the first statement after `task = ...` and occur only there (F53; LockImp.ckif_first).
 
 FAIL CLOSED: accepted grammar (anything else => LockGen.v is replaced by a file that does not type-check and carries
 the message, exit status 2):
@@ -309,6 +310,10 @@ def translate():
         atoms[name] = m.atoms
         if name == "acquire" and set(m.points) != set(PTS):
             raise Refuse(f"acquire: await points found {sorted(m.points)}, expected {sorted(PTS)}")
+        if name == "acquire" and not (defs["acquire_entry"].startswith("(SSeq SBindTask (SSeq SCkIf ")
+                                      and defs["acquire_entry"].count("SCkIf") == 1):
+            raise Refuse("acquire: `await ...checkpoint_if_cancelled()` must be the first statement after `task = ...` "
+                         "and occur only there (F53: the check may yield and return; nothing may be read before it)")
     if "release_loop_body" not in defs:
         raise Refuse("release: the pop loop `while self._waiters:` was not found")
     body = [s for s in fns["locked"].body if not (isinstance(s, ast.Expr) and isinstance(s.value, ast.Constant))]
